@@ -22,13 +22,18 @@ PAIRS = [
 ]
 
 
+ADJUST = {None: None, "identity": lambda x: x, "half": lambda x: x / 2, "zero": torch.zeros_like,
+          "clamp": lambda x: x.clamp(-1.0, 1.0)}
+
+
 def generate(ctx):
     rng = ctx.rng
     th = ctx.tier == "thorough"
     for i in range(1500 if th else 120):
         yield {"part": "interp", "pair": i % len(PAIRS), "dt": rng.choice([1.0, 0.5, 0.1, 1.3, 2.5]),
                "seed": rng.randrange(1 << 30), "const": rng.choice([0.5, 2.0, 7.5, 20.0, 100.0]),
-               "shape": list(rng.choice([(5,), (3, 4), (2, 3, 2)]))}
+               "shape": list(rng.choice([(5,), (3, 4), (2, 3, 2)])),
+               "adjust": rng.choice([None, "half", "zero", "clamp", "identity"])}
     for _ in range(600 if th else 40):
         dist = rng.choice(["Poisson", "Normal", "LogNormal"])
         if dist == "Poisson":
@@ -71,6 +76,11 @@ def _interp(ctx, desc):
     nxt = torch.randn(shape, generator=g, dtype=torch.float64) * 10
     fracs = [0.0, 1e-6, 0.1, 0.25, 0.5 - 1e-6, 0.5, 0.5 + 1e-6, 0.75, 0.9, 1 - 1e-6, 1.0]
     efn, ifn = getattr(inff, "extrap_" + ex), getattr(inff, "interp_" + ip)
+    # the linear pairs document an optional adjustment f of the bracket they keep: X(0) = f(D(0)) (forward) or
+    # X(dt) = f(D(dt)) (backward), the other slot on the line through it and the sample
+    adj = ADJUST[desc.get("adjust")] if ex.startswith("linear") else None
+    if adj is not None:
+        kw = {**kw, "adjust": adj}
     for fr in fracs:
         ctx.case(f"interp/{ex}->{ip}/frac{fr}/dt{dt}")
         sat = torch.full(shape, fr * dt, dtype=torch.float64)
@@ -96,6 +106,12 @@ def _interp(ctx, desc):
         cond = 1.0
         if linear:
             cond = 1.0 / min(fr, 1 - fr)
+        if adj is not None:
+            kept, want = (a, adj(prev)) if ex == "linear_forward" else (b, adj(nxt))
+            ctx.count("adjusted_bracket_laws")
+            if not torch.equal(kept, want):
+                ctx.violation(f"interp.adjusted_bracket.{ex}", "the kept bracket is not the adjusted observation f(D)", desc, {"frac": fr})
+                return
         ctx.count("roundtrip_laws")
         if not torch.allclose(back, sample, rtol=1e-10 * cond, atol=1e-9 * cond):
             ctx.violation(f"interp.roundtrip.{ex}->{ip}", f"interp(extrap(x)) != x at sample_at={fr}*dt", desc,
